@@ -162,6 +162,20 @@ def psdSafeCholesky [Zero α] [Sub α] [Mul α] [NatCast α] (ops : Ops M F α) 
     else o
   | .error _ => o
 
+/-- `LinearOperator.cholesky(upper)` of a dense-backed operator (`_cholesky` + `cholesky` in `_linear_operator.py`):
+    evaluated_mat = …to_dense()
+    if evaluated_mat.size(-1) == 1: return TriangularLinearOperator(evaluated_mat.clamp_min(0.0).sqrt())   -- `sqrtClamp`
+    cholesky = psd_safe_cholesky(evaluated_mat, upper=False).contiguous()
+    … `cholesky()` transposes the lower factor if `upper`.
+The 1×1 shortcut never calls `psd_safe_cholesky`: no `cholesky_ex`, no jitter, no warning, no error (a non-positive entry
+gives the factor 0, a NaN entry a NaN factor).  No `jitter` / `max_tries` / `out` arguments exist on this route. -/
+def opCholesky [Zero α] [Sub α] [Mul α] [NatCast α] (ops : Ops M F α) (sqrtClamp : M → F) (size : Nat) (c : Consts)
+    (env : Env α) (upper : Bool) (A : List M) : Outcome M F α :=
+  let o : Outcome M F α :=
+    if size = 1 then { result := .ok (A.map sqrtClamp), calls := 0, warns := [], work := A, input := A, outBuf := none }
+    else psdSafeCholesky ops c env {} A
+  if upper then { o with result := o.result.map fun ls => ls.map ops.transposeF } else o
+
 /-! ### Closed forms used by the theorems (not by the driver) -/
 
 /-- `jitter_prev` at the start of iteration `i`. -/
